@@ -163,7 +163,7 @@ func c15Run(sc c15Scenario) (res c15Result) {
 		srv := mcp.NewSSEServer("verif", "1.0", opts...)
 		srv.RegisterTool(tool, handler)
 		ts := httptest.NewServer(srv)
-		defer func() { ts.CloseClientConnections(); ts.Close() }()
+		defer func() { closeClientConns(ts); closeTS(ts) }()
 		st, err := peer.OpenSSE(ctx, http.MethodGet, ts.URL+"/sse", map[string]string{"Accept": "text/event-stream"}, nil)
 		if err != nil || st.Status != 200 {
 			res.Broken = fmt.Sprintf("GET /sse: %v", err)
@@ -228,7 +228,7 @@ func c15Run(sc c15Scenario) (res c15Result) {
 		srv := mcp.NewServer("verif", "1.0", opts...)
 		srv.RegisterTool(tool, handler)
 		ts := httptest.NewServer(srv.Handler())
-		defer func() { ts.CloseClientConnections(); ts.Close() }()
+		defer func() { closeClientConns(ts); closeTS(ts) }()
 		url := ts.URL + "/mcp"
 		sid0, err := peer.Handshake(ctx, url, nil)
 		if err != nil {
@@ -242,7 +242,7 @@ func c15Run(sc c15Scenario) (res c15Result) {
 			pts := httptest.NewServer(plain.Handler())
 			_, e1 := peer.Handshake(ctx, pts.URL+"/mcp", nil)
 			_, e2 := peer.Handshake(ctx, pts.URL+"/mcp", nil)
-			pts.Close()
+			closeTS(pts)
 			if e1 == nil && e2 == nil && len(mws) > 0 {
 				res.HandshakeErr = err.Error()
 				return
